@@ -6,7 +6,7 @@
 # tools/check_against.sh. One slot (/tmp/seed3/det) is reused so the harness build is incremental.
 ID="$1"; shift
 P=/tmp/seed3/out-$ID/patch-on-current-head.diff; [ -f $P ] || P=/tmp/seed3/out-$ID/patch.diff; [ -f $P ] || P=/verif/seeded/$ID/patch-on-current-head.diff; [ -f $P ] || P=/verif/seeded/$ID/patch.diff
-W=/tmp/seed3/det; LOG=/tmp/seed3/detect-$ID.log
+W=/tmp/seed3/det${DET_SLOT:-}; LOG=/tmp/seed3/detect-$ID.log
 if [ ! -d $W ]; then git -C /repo worktree add -q --detach $W HEAD || exit 2; fi
 cd $W && git reset -q --hard && git clean -fdq && git checkout -q --detach $(git -C /repo rev-parse HEAD)
 : > $LOG
